@@ -99,12 +99,12 @@ func (h *c17MemHooks) build(env *c17Env, c c17Case) (byte, []byte, bool) {
 
 func (h *c17MemHooks) probe(env *c17Env) string {
 	mp := h.mp[env.name]
-	if !c17WithTimeout(3*time.Second, func() { _ = mp.Size(); _ = mp.ReapMaxTxs(1) }) {
+	if !c17WithTimeout(10*time.Second, func() { _ = mp.Size(); _ = mp.ReapMaxTxs(1) }) {
 		return "mempool locked"
 	}
 	h.n++
 	var err error
-	if !c17WithTimeout(3*time.Second, func() {
+	if !c17WithTimeout(10*time.Second, func() {
 		err = mp.CheckTx([]byte(fmt.Sprintf("c17-probe-%d=v", h.n)), nil, mempool.TxInfo{})
 	}) {
 		return "CheckTx hangs"
